@@ -211,6 +211,58 @@ def run(tier):
 
     with ThreadPoolExecutor(max_workers=16) as ex:
         records = list(ex.map(do, plan))
+    # ---- a failure inside a worker (the codec reports an error, e.g. its own allocation failed) must reach the caller of the
+    #      block processor: spec/BlockProc.tla ErrorReported, every emitted input with a failing block on the real code -----------
+    import bpbind
+    bcfg = work + "/bperr.cfg"
+    bargs = dict(nf=2, mb=1, ids=["a", "x", "z"], backlogs=(3, 5), flagsets=[[], ["DONT_FRAGMENT"]], tails=(1, 3), failids=("x",))
+    bpbind.cfg_for(bcfg, invariants=("ErrorReported",), **bargs)
+    r = run_tlc("BlockProc", bcfg, workers=16, timeout=1200, heap="12g")
+    ev.tlc(r, "BlockProc ErrorReported (compressor fails on content x)")
+    if not r["ok"]:
+        print("MODEL-FAILURE: BlockProc violates %s" % r["violated"])
+        ev.write()
+        return 2
+    bpbind.cfg_for(bcfg, invariants=("ErrorReported",), finish_checks=False, **bargs)
+    r = run_tlc("BlockProc", bcfg, workers=16, timeout=1200, heap="12g")
+    ev.tlc(r, "dev finish() without a look at the pool status (pre-fix tree)")
+    if r["violated"] != "ErrorReported":
+        print("SELF-CHECK-FAILED: FinishChecksStatus=FALSE without counterexample")
+        ev.write()
+        return 2
+    bpbind.cfg_for(bcfg, invariants=("ErrorReported",), emit=True, **bargs)
+    r = run_tlc("BlockProc", bcfg, workers=8, timeout=1200, heap="12g")
+    em = [e for e in bpbind.parse_emitted(r["out"]) if any("x" in f["blocks"] or any(t["c"] == "x" for t in f["tail"]) for f in e["input"])]
+    rng.shuffle(em)
+    em = em[:400 if tier == "quick" else 6000]
+    hb = {v: bpbind.build_harness(work, v) for v in ("plain", "serial")}
+    swallowed = 0
+
+    def bperr(k):
+        e = em[k]
+        out = []
+        for variant, W in (("serial", 1), ("plain", 1), ("plain", 3)):
+            pth = "%s/bperr_%d_%s%d.txt" % (work, k, variant, W)
+            bpbind.input_file(pth, e["input"], e["mb"], W, failids=("x",))
+            rc, o, er = sh([hb[variant], pth], timeout=60)
+            try:
+                real = json.loads(o.decode().strip().split("\n")[-1])
+            except Exception:
+                real = {"err": None, "crash": rc}
+            out.append((variant, W, real.get("err"), pth))
+        return k, out
+
+    with ThreadPoolExecutor(max_workers=12) as ex:
+        for k, out in ex.map(bperr, range(len(em))):
+            for variant, W, err, pth in out:
+                # does the model expect the compressor to be called on an x block at all? (sparse / dont_compress / fragments are not compressed)
+                if err == 0 and em[k]["res"].get("pfail", True):
+                    swallowed += 1
+                    rep.violation("blockproc-worker-error-swallowed", "block processor (%s build, %d workers): the compressor failed on a block, every call up to "
+                                  "sqfs_block_processor_finish returned 0; input %s" % (variant, W, json.dumps(em[k]["input"])), artefact=pth, data={"input": em[k]["input"]})
+                elif err is None:
+                    rep.violation("blockproc-crash", "block processor harness died on input %s" % json.dumps(em[k]["input"]), artefact=pth)
+    ev.set("worker_failure_inputs_replayed", len(em) * 3)
     # ---- standard output on a full device: every write fails with ENOSPC (also reaches the stdio paths of -l/-d/-s/-x,
     #      whose write() calls inside glibc the preload shim cannot intercept) ------------------------------------
     ximg = work + "/refx.sqfs"
